@@ -15,7 +15,7 @@ import (
 
 func init() {
 	Register(&World{Name: "merge", Episodes: true, Props: []string{"C12"}, Concurrent: true, MaxSteps: 6000, Run: mergeWorld})
-	ExpectedProbes["merge"] = []string{"chans-arity-0", "chans-arity-1", "chans-arity-2", "chans-arity-3", "chans-arity-many", "input-closed-immediately", "replicate-0-dsts", "replicate-many-dsts", "stream-merge-error", "stream-merge-close-early", "stream-merge-zero-inputs", "stream-merge-end", "stream-merge-next-ctx-expired"}
+	ExpectedProbes["merge"] = []string{"stream-merge-chan-inputs", "stream-merge-chan-inputs-end", "chans-arity-0", "chans-arity-1", "chans-arity-2", "chans-arity-3", "chans-arity-many", "input-closed-immediately", "replicate-0-dsts", "replicate-many-dsts", "stream-merge-error", "stream-merge-close-early", "stream-merge-zero-inputs", "stream-merge-end", "stream-merge-next-ctx-expired"}
 }
 
 func mergeWorld(r *R) {
@@ -25,7 +25,117 @@ func mergeWorld(r *R) {
 	case 2:
 		replicateScenario(r)
 	default:
+		if r.Choose(5, "stream-merge-chan-inputs") == 4 {
+			streamMergeChanInputs(r)
+			return
+		}
 		streamMergeScenario(r)
+	}
+}
+
+// streamMergeChanInputs: stream.Merge over inputs that are the library's own channel streams
+// (stream.Chan), fed by harness tasks that may stop sending without ever closing their channel. The
+// same clauses as in streamMergeScenario, seen from the other side: the inputs cannot be told to
+// stop, so after Close the goroutines Merge started have to finish with the channels still open.
+func streamMergeChanInputs(r *R) {
+	r.Probe("stream-merge-chan-inputs")
+	arity := 1 + r.Choose(4, "arity")
+	root := RootCtx(r)
+	chs := make([]chan int, arity)
+	ins := make([]stream.Stream[int], arity)
+	counts := make([]int, arity)
+	closes := make([]bool, arity)
+	total := 0
+	allClose := true
+	for i := range chs {
+		chs[i] = make(chan int, r.Choose(3, "chan-cap"))
+		ins[i] = stream.Chan(chs[i])
+		counts[i] = r.Choose(4, "count")
+		closes[i] = r.Choose(3, "feeder-closes") != 2
+		allClose = allClose && closes[i]
+		total += counts[i]
+	}
+	closeAfter := -1
+	if !allClose || r.Choose(3, "close-early") == 2 {
+		closeAfter = r.Choose(total+1, "close-after") // some channel stays open: the consumer gives up at some point
+	}
+	r.Logf("config: stream.Merge over stream.Chan inputs, arity=%d counts=%v feeder closes=%v closeAfter=%d", arity, counts, closes, closeAfter)
+	m := stream.Merge(ins...)
+	for i := range chs {
+		i := i
+		pace := r.Choose(3, "feeder-pace")
+		sim.GoNamed(fmt.Sprintf("feeder%d", i), func() {
+			for j := 0; j < counts[i]; j++ {
+				Spin(pace, "feeder-pace")
+				sim.Send(chs[i], i*100+j, "feeder-send")
+			}
+			if closes[i] {
+				sim.Close(chs[i], "feeder-close")
+			}
+		})
+	}
+	last := make([]int, arity)
+	for i := range last {
+		last[i] = -1
+	}
+	cs := &Calls{r: r}
+	done, closedOut := false, false
+	sim.GoNamed("consumer", func() {
+		defer func() { done = true }()
+		for k := 0; k != closeAfter; k++ {
+			c := cs.Begin("consumer", "Next", k, root)
+			v, err := m.Next(root.C)
+			cs.End(c, v, err == nil, err)
+			if err == stream.End {
+				for i := range last {
+					if !closes[i] || last[i]+1 != counts[i] {
+						r.Violate("C12", "stream-merge/end-before-delivered/chan-inputs", "End reported but input %d (closed by its feeder: %v) has delivered %d of %d items", i, closes[i], last[i]+1, counts[i])
+						return
+					}
+				}
+				r.Probe("stream-merge-chan-inputs-end")
+				break
+			}
+			if err != nil {
+				r.Violate("C12", "stream-merge/wrong-error/chan-inputs", "Next reported %v; channel inputs cannot fail and the context is live", err)
+				return
+			}
+			i, j := v/100, v%100
+			if i < 0 || i >= arity || j != last[i]+1 || j >= counts[i] {
+				r.Violate("C12", "stream-merge/order/chan-inputs", "received %d; input %d had delivered up to #%d of %d", v, i, last[i], counts[i])
+				return
+			}
+			last[i] = j
+		}
+		c := cs.Begin("consumer", "Close", 0, nil)
+		m.Close()
+		cs.End(c, 0, true, nil)
+		closedOut = true
+	})
+	sim.WaitStuck("stream-merge-chan-phase1")
+	if r.Failed() {
+		return
+	}
+	if !done {
+		pend := cs.Pending()
+		if len(pend) > 0 && pend[0].Kind == "Close" {
+			r.Violate("C12", "stream-merge/stuck/Close", "Close of the merged stream (channel inputs) never returns: %v", sim.TaskStates())
+			return
+		}
+		delivered := 0
+		for i := range last {
+			delivered += last[i] + 1
+		}
+		if allClose || delivered < total {
+			r.Violate("C12", "stream-merge/stuck/Next/chan-inputs", "Next never returns although %d of %d sent items are undelivered (all feeders close: %v): %v", total-delivered, total, allClose, sim.TaskStates())
+		}
+		return // legitimately waiting on a channel that nobody closes
+	}
+	if closedOut {
+		if lt := LibraryTasks(); len(lt) > 0 {
+			r.Probe("stream-merge-chan-inputs-open-at-close")
+			r.Violate("C12", "stream-merge/goroutines-left-after-close/chan-inputs", "the output was closed with some input channels still open and nothing can run any more, but goroutines started by Merge are still alive (they need further input to finish): %s", taskNames(lt))
+		}
 	}
 }
 
@@ -329,7 +439,7 @@ func replicateRun[T any](r *R, enc func(int) T, dec func(T) int) {
 
 func streamMergeScenario(r *R) {
 	arity := []int{2, 0, 1, 3, 4}[r.Choose(5, "arity")]
-	root := NewCtx(nil, "root")
+	root := RootCtx(r)
 	srcs := make([]*Src, arity)
 	ins := make([]stream.Stream[int], arity)
 	total := 0
